@@ -47,7 +47,7 @@ def rcontent(rng, big):
 def rpath(rng, used):
     while True:
         depth = rng.randint(0, 4)
-        parts = ["".join(rng.choice("abcxyzABC019_-.") for _ in range(rng.randint(1, 6))).strip(".") or "q" for _ in range(depth + 1)]
+        parts = ["".join(rng.choice("abcxyzABC019_-.\\ +@~#%") for _ in range(rng.randint(1, 6))).strip(". ") or "q" for _ in range(depth + 1)]
         p = "/".join(parts)
         # a path may not be a prefix directory of another file and vice versa
         if any(u == p or u.startswith(p + "/") or p.startswith(u + "/") for u in used):
@@ -129,6 +129,17 @@ def check(run):
         b = {"dirs": [], "files": [{"p": list(b"d/resize.bin"), "c": [[4, s1]]}, {"p": list(b"keep"), "c": [[5, 3]]}]}
         cases.append(Case([{"op": "patch.create", "case": base, "a": a, "b": b}], desc={"resize": [s0, s1]}))
         base += 1
+    # a file that keeps a prefix of its old content and then differs - shorter, equal and longer than before
+    for (pre, t0, t1) in [(50, 250, 70), (1, 299, 119), (128, 172, 1), (200, 100, 100), (64, 10, 300), (16000, 5, 1), (127, 129, 128)]:
+        a = {"dirs": [], "files": [{"p": list(b"d/prefix.bin"), "c": [[6, pre], [7, t0]]}]}
+        b = {"dirs": [], "files": [{"p": list(b"d/prefix.bin"), "c": [[6, pre], [8, t1]]}]}
+        cases.append(Case([{"op": "patch.create", "case": base, "a": a, "b": b}], desc={"shared prefix": [pre, t0, t1]}))
+        base += 1
+    for nm in (b"a\\b.bin", b"dir\\sub/file", b"sp ace/x y", b"h#sh/%41"):
+        a = {"dirs": [], "files": [{"p": list(nm), "c": [[1, 30]]}, {"p": list(b"keep"), "c": [[5, 3]]}]}
+        b = {"dirs": [], "files": [{"p": list(nm + b"2"), "c": [[2, 30]]}, {"p": list(b"keep"), "c": [[5, 3]]}]}
+        cases.append(Case([{"op": "patch.create", "case": base, "a": a, "b": b}], desc={"unusual name": nm.decode()}))
+        base += 1
     twin = lambda d, c: {"p": list(("%s/readme.txt" % d).encode()), "c": c}
     for (ta, tb) in [([("common", 1), ("ex1", 2)], [("common", 1)]), ([("common", 1)], [("common", 1), ("ex1", 2)]),
                      ([("common", 1), ("ex1", 1)], [("common", 1), ("ex1", 2)]), ([("a/b", 1), ("a", 1), ("b", 1)], [("a", 1)]),
@@ -149,7 +160,7 @@ def check(run):
     run.exhaustive = True
     run.notes["exhaustive_scope"] = "all tree pairs of the bounded model"
     run.conform(cases, MODULE, CFG, post=post, shards=14, xmx="4g")
-    run.assumptions = ["regular files only, ASCII relative paths, no path is a prefix directory of another"]
+    run.assumptions = ["regular files only, ASCII relative paths (incl. backslash, blank, #, %, +, @, ~), no path is a prefix directory of another"]
 
 
 def replay(run, rp):
